@@ -362,7 +362,7 @@ def replay(ctx, path):
             return 2
         case = v.get("case") or {}
         if key.startswith("roundtrip:"):
-            rc, out = common.sh([ctx.harness_bin("c08rt"), "--replay", path])
+            rc, out = common.sh([ctx.harness_bin("c08rt"), "--replay", path, "--out", ctx.run_dir])
             print(out)
             return 0
         # validators: re-run the harness on this one source (as the only file of a scratch tree) and the
@@ -392,6 +392,6 @@ def replay(ctx, path):
         return 0
     if not ctx.build_harness("c08"):
         return 2
-    rc, out = common.sh([ctx.harness_bin("c08"), "--replay", path])
+    rc, out = common.sh([ctx.harness_bin("c08"), "--replay", path, "--out", ctx.run_dir])
     print(out)
     return 0
